@@ -34,6 +34,7 @@ const (
 	KPtr
 	KTuple
 	KFunc
+	KArg // (part of) the entry point's request argument; Cell = field path
 )
 
 type AV struct {
@@ -79,6 +80,8 @@ func (a AV) key() string {
 			s = append(s, t.key())
 		}
 		return "(" + strings.Join(s, ";") + ")"
+	case KArg:
+		return "arg:" + a.Cell
 	case KFunc:
 		var s []string
 		for _, t := range a.Binds {
@@ -241,7 +244,15 @@ func (t *TS) RunEntry(fn *ssa.Function) {
 	t.entry = fn
 	t.budget = 200000
 	st := &State{G: &Global{Txns: map[string]TxnSt{}, Cells: map[string]AV{}}, Env: map[ssa.Value]AV{}}
-	outs := t.execFn(fn, nil, nil, st)
+	var eargs []AV
+	for _, p := range fn.Params {
+		if p.Name() == "args" {
+			eargs = append(eargs, AV{K: KArg, Cell: ""})
+		} else {
+			eargs = append(eargs, top)
+		}
+	}
+	outs := t.execFn(fn, eargs, nil, st)
 	for _, o := range outs {
 		t.Snaps = append(t.Snaps, Snapshot{Entry: fn.Name(), Ret: o.ret, G: o.G, Results: o.results})
 	}
@@ -564,12 +575,28 @@ func (t *TS) branch(s *State, ifi *ssa.If) (*State, *State) {
 		if bo.Op == token.NEQ {
 			eqS, neS = fv, tv
 		}
+		for _, pr := range [][2]ssa.Value{{bo.X, bo.Y}, {bo.Y, bo.X}} {
+			if n, fl, _, _ := loadedField(pr[0]); n == t.c.V.Inode && fl == "Gen" {
+				if mc, f2 := fieldOfCallResult(pr[1]); mc != nil && f2 == "Gen" && mc.Call.StaticCallee() != nil && mc.Call.StaticCallee().Name() == "MakeFh" {
+					if p, ok := t.argPath(s, mc.Call.Args[0]); ok {
+						eqS.G.Cells["$fh:"+p] = AV{K: KBool, B: true}
+					}
+				}
+			}
+		}
 		t.refineEq(eqS, neS, bo.X, bo.Y)
 		t.refineEq(eqS, neS, bo.Y, bo.X)
 	}
 	setBool(tv, true)
 	setBool(fv, false)
 	if call, ok := cond.(*ssa.Call); ok {
+		if cal := call.Call.StaticCallee(); cal != nil && cal.Name() == "Equal" && relPkg(cal) == "fh" && len(call.Call.Args) == 2 {
+			pa, oka := t.argPath(s, call.Call.Args[0])
+			pb, okb := t.argPath(s, call.Call.Args[1])
+			if oka && okb {
+				tv.G.Cells["$fheq:"+pa+"="+pb] = AV{K: KBool, B: true}
+			}
+		}
 		if cal := call.Call.StaticCallee(); cal != nil && cal.Name() == "IllegalName" && len(call.Call.Args) == 1 {
 			if k := nameKey(call.Call.Args[0]); k != "" {
 				fv.G.Cells["$legal:"+k] = AV{K: KBool, B: true}
@@ -902,7 +929,13 @@ func (t *TS) call(s *State, call *ssa.Call) []*State {
 	}
 	var args []AV
 	for _, a := range cc.Args {
-		args = append(args, t.eval(s, a))
+		av := t.eval(s, a)
+		if av.K == KTop {
+			if p, ok := t.argPath(s, a); ok {
+				av = AV{K: KArg, Cell: p}
+			}
+		}
+		args = append(args, av)
 	}
 	// ---- primitives of the transaction API
 	if callee != nil {
@@ -980,6 +1013,9 @@ func (t *TS) call(s *State, call *ssa.Call) []*State {
 				n.MayAlloc = true
 			}
 			s.G.Txns[id] = n
+			if callee == V.GetInodeFh && len(args) > 1 && args[1].K == KArg {
+				s.G.Cells["$fh:"+args[1].Cell] = AV{K: KBool, B: true}
+			}
 			mayNil := callee == V.GetInodeFh || callee == V.GetInodeInum || callee == V.AllocInode
 			s.Env[call] = AV{K: KInode, Txns: []string{id}, MayNil: mayNil, Src: "acq:" + t.c.P.Pos(call.Pos())}
 			return []*State{s}
@@ -1157,4 +1193,27 @@ func resKey(v ssa.Value, idx int) string {
 		fn = in.Parent().Name()
 	}
 	return fmt.Sprintf("$res:%s#%d~%s", v.Name(), idx, fn)
+}
+
+// argPath: if v is (a field of) a value bound to the request argument,
+// returns its field path relative to the request.
+func (t *TS) argPath(s *State, v ssa.Value) (string, bool) {
+	if a := t.eval(s, v); a.K == KArg {
+		return a.Cell, true
+	}
+	pm, path := paramFieldPath(v)
+	if pm == nil {
+		return "", false
+	}
+	a, ok := s.Env[pm]
+	if !ok || a.K != KArg {
+		return "", false
+	}
+	if a.Cell == "" {
+		return path, true
+	}
+	if path == "" {
+		return a.Cell, true
+	}
+	return a.Cell + "." + path, true
 }
